@@ -114,7 +114,7 @@ func (s *faultRefStore) DeleteTransaction(id uuid.UUID) error {
 // ---- scenario --------------------------------------------------------------------------------------
 
 type c14Op struct {
-	Kind   string `json:"kind"` // commit | discard
+	Kind   string `json:"kind"` // commit | discard | advance
 	FailAt int    `json:"failAt"` // -1 = no fault; k = the (k+1)-th write fails
 	Once   bool   `json:"once"`   // only that one write fails (an injected error); otherwise every later write fails too (a crash)
 	// a fault below the store interface: one class of SQL statement of the ref store fails (SQLite
@@ -125,6 +125,10 @@ type c14Op struct {
 	On  string `json:"on,omitempty"`
 	// command-line scenarios: the staged commit object of this branch is unreadable during the operation
 	Hide string `json:"hide,omitempty"`
+	// advance: another operation of the repository moves branch On in between — an ordinary commit
+	// (id New, parent = the branch's head, made with ref.CommitHead as `wrgl commit` does; it creates
+	// the branch when there is none). It does not go through the fault-injecting wrappers (FailAt = -1).
+	New int `json:"new,omitempty"`
 }
 
 // c14SQLFault installs the trigger(s) that make the statements of class op.Sql fail; the returned
@@ -226,10 +230,39 @@ func c14Run(in *c14Input) Res {
 				return Err("stage")
 			}
 		}
+		advOf := map[string]int{}
+		advance := func(b string, id int) error {
+			com := &objects.Commit{Table: fakeSum(id), AuthorName: "a", AuthorEmail: "e", Time: time.Unix(int64(1700000000+id), 0).UTC(), Message: "c" + itoa(id)}
+			if head, err := ref.GetHead(rs, b); err == nil {
+				com.Parents = [][]byte{head}
+			}
+			buf := newBuf()
+			if _, err := com.WriteTo(buf); err != nil {
+				return err
+			}
+			s, err := objects.SaveCommit(db, buf.Bytes())
+			if err != nil {
+				return err
+			}
+			advOf[string(s)] = id
+			return ref.CommitHead(rs, b, s, com, nil)
+		}
 		var cidOf func(sum []byte) string
 		cidOf = func(sum []byte) string {
 			if sum == nil {
 				return "none"
+			}
+			if id, ok := advOf[string(sum)]; ok {
+				// an ordinary commit made in between: "a(<id>,<parent>)"
+				c, err := objects.GetCommit(db, sum)
+				if err != nil {
+					return "missing"
+				}
+				var parent []byte
+				if len(c.Parents) > 0 {
+					parent = c.Parents[0]
+				}
+				return fmt.Sprintf("a(%d,%s)", id, cidOf(parent))
 			}
 			if id, ok := idOf[string(sum)]; ok {
 				return fmt.Sprintf("o%d", id)
@@ -291,6 +324,13 @@ func c14Run(in *c14Input) Res {
 		}
 		states := []c14State{dump("init")}
 		for _, op := range in.Ops {
+			if op.Kind == "advance" {
+				if err := advance(op.On, op.New); err != nil {
+					return Err("advance")
+				}
+				states = append(states, dump("ok"))
+				continue
+			}
 			b := &writeBudget{left: op.FailAt, once: op.Once}
 			fdb := &faultObjStore{Store: db, b: b}
 			frs := &faultRefStore{Store: rs, b: b}
@@ -370,6 +410,43 @@ func genC14(r *rand.Rand) *c14Input {
 	return in
 }
 
+// c14Advances puts 1..3 ordinary commits of other operations (kind "advance") into a generated
+// scenario: each on any of the four branch names — mostly a staged one — and anywhere in the
+// sequence: before the first commit of the transaction, between an interrupted run and its re-run
+// (on a branch that run has moved, or on one it has not reached), after a discard, after the end.
+// Draws made after all others of the case.
+func c14Advances(r *rand.Rand, in *c14Input) {
+	staged := []string{}
+	next := 1
+	for b, c := range in.Staged {
+		staged = append(staged, b)
+		if c >= next {
+			next = c + 1
+		}
+	}
+	for _, c := range in.Heads {
+		if c >= next {
+			next = c + 1
+		}
+	}
+	sort.Strings(staged)
+	for i, k := 0, 1+r.Intn(3); i < k; i++ {
+		b := []string{"a", "b", "c", "d"}[r.Intn(4)]
+		if r.Intn(4) != 0 {
+			b = staged[r.Intn(len(staged))]
+		}
+		// mostly between two operations of the transaction
+		at := r.Intn(len(in.Ops) + 1)
+		if len(in.Ops) >= 2 && r.Intn(3) != 0 {
+			at = 1 + r.Intn(len(in.Ops)-1)
+		}
+		ops := append([]c14Op{}, in.Ops[:at]...)
+		ops = append(ops, c14Op{Kind: "advance", FailAt: -1, On: b, New: next})
+		in.Ops = append(ops, in.Ops[at:]...)
+		next++
+	}
+}
+
 // c14SQLOps replaces the operations of a generated scenario by ones whose fault is a failing SQL
 // statement inside the ref store (draws made after those of genC14).
 func c14SQLOps(r *rand.Rand, in *c14Input) {
@@ -444,6 +521,11 @@ func runC14(ctx *Ctx) {
 		in.Unwritable = []string{bs[(ctx.Idx/25)%len(bs)]}
 		tags = append(tags, "unwritable-staged-commit")
 		nt = true
+	}
+	if ctx.Idx%3 == 1 {
+		// every third case: other operations commit to the branches while the transaction is under way
+		c14Advances(ctx.R, in)
+		tags = append(tags, "advance")
 	}
 	ctx.Emit("tx", in, c14Run(in), nt, tags...)
 }
